@@ -64,6 +64,11 @@ type c05val struct {
 }
 
 func (p *c05) Run(c fw.Case, r *fw.Rec) {
+	pairWorker(p.Env, p.Id, c, r, p.build(c, r))
+}
+
+// build generates the experiment of one case.
+func (p *c05) build(c fw.Case, r *fw.Rec) pairBuild {
 	rnd := p.rnd(c.Idx)
 	a, b := rnd.Range(-50, 99), rnd.Range(1, 9)
 	i64 := int64(rnd.Range(-1000, 1000)) * 1_000_000_007
@@ -224,12 +229,12 @@ func (p *c05) Run(c fw.Case, r *fw.Rec) {
 		fmt.Fprintf(&want, "%s: %d %q %s\n", kind, k, lval.String(), tv)
 	}
 	exp := want.String()
-	pairWorker(p.Env, p.Id, c, r, pairBuild{
+	return pairBuild{
 		XGo:    map[string]string{"main.xgo": src.String()},
 		Expect: &exp,
 		Opts:   compileOpts{GenMain: true},
 		Info:   map[string]string{"linetags": "1"},
-	})
+	}
 }
 
 func fmtFloatSrc(g float64) string {
